@@ -690,6 +690,82 @@ func c13RunStress(line string) string {
 	return "ok"
 }
 
+
+// ---------------------------------------------------------------------------------------------
+// fan-in: k AskChannel requests share ONE caller-made buffered reply channel, the collector reads late
+
+func c13RunFanIn(line string) string {
+	toks := strings.Fields(line)
+	mcap, k, c := c12KVInt(toks, "mcap"), c12KVInt(toks, "k"), c12KVInt(toks, "c")
+	late := time.Duration(c12KVInt(toks, "late")) * time.Millisecond
+	reply := func(p int) int { return p*7 + 3 }
+	var pan int32
+	effect := func(self *fpgo.ActorDef[interface{}], msg interface{}) {
+		ask, ok := msg.(*fpgo.AskDef[int, int])
+		if !ok {
+			return
+		}
+		defer func() {
+			if r := recover(); r != nil {
+				atomic.AddInt32(&pan, 1)
+			}
+		}()
+		ask.Reply(reply(ask.Message))
+	}
+	actor := c13NewActor(mcap, effect)
+	shared := make(chan int, c)
+	var wg sync.WaitGroup
+	for i := 0; i < k; i++ {
+		wg.Add(1)
+		go func(i int) {
+			defer wg.Done()
+			defer func() {
+				if r := recover(); r != nil {
+					atomic.AddInt32(&pan, 1)
+				}
+			}()
+			var ask *fpgo.AskDef[int, int]
+			if i%2 == 0 {
+				var proto fpgo.AskDef[int, int]
+				ask = proto.NewByOptions(1000+i, shared)
+			} else {
+				ask = fpgo.AskNewByOptionsGenerics[int, int](1000+i, shared)
+			}
+			ask.AskChannel(actor)
+		}(i)
+	}
+	time.Sleep(late) // the collector is late: the actor waits in Reply once the c slots are taken
+	want := map[int]int{}
+	for i := 0; i < k; i++ {
+		want[reply(1000+i)]++
+	}
+	received := 0
+	for received < k {
+		select {
+		case v := <-shared:
+			if want[v] == 0 {
+				atomic.AddInt32(&c13StressViols, 1)
+				return fmt.Sprintf("viol misrouted value %d is not an outstanding reply (or came twice)", v)
+			}
+			want[v]--
+			received++
+			continue
+		case <-time.After(c13StressPatience(5 * time.Second)):
+		}
+		break
+	}
+	func() { defer func() { recover() }(); actor.Close() }()
+	if atomic.LoadInt32(&pan) != 0 {
+		atomic.AddInt32(&c13StressViols, 1)
+		return "viol panic in Reply / AskChannel"
+	}
+	if received != k {
+		atomic.AddInt32(&c13StressViols, 1)
+		return fmt.Sprintf("viol lost received=%d of %d replies", received, k)
+	}
+	return fmt.Sprintf("ok received=%d", received)
+}
+
 var c13StressViols int32
 
 // c13StressPatience: generous while everything is fine, short once this process has already seen violations
@@ -706,6 +782,8 @@ func c13Run(line string) string {
 		return c13RunAsk(line)
 	case strings.HasPrefix(line, "askstress "):
 		return c13RunStress(line)
+	case strings.HasPrefix(line, "fanin "):
+		return c13RunFanIn(line)
 	}
 	return "bad-case"
 }
@@ -881,6 +959,20 @@ func c13Gen(tier string, rng *rand.Rand, emit func(string)) map[string]interface
 		}
 	}
 	stats["stress_cases"] = nStress
+	// (4) fan-in: k requests on one shared reply channel of capacity c < k, late collector
+	nFan := 0
+	for _, mcap := range []int{0, 4} {
+		for _, kc := range [][2]int{{2, 1}, {4, 1}, {4, 3}, {8, 2}, {16, 4}} {
+			for _, late := range []int{0, 30, 150} {
+				if !thorough && rng.Intn(2) == 0 && late != 30 {
+					continue
+				}
+				emit(fmt.Sprintf("fanin mcap=%d k=%d c=%d late=%d seed=%d", mcap, kc[0], kc[1], late, rng.Intn(1000000)))
+				nFan++
+			}
+		}
+	}
+	stats["fanin_cases"] = nFan
 	return stats
 }
 
